@@ -56,7 +56,7 @@ def work(task):
             for pu in range(npu):
                 for qu in range(npu):
                     triples.append((tu, pu, qu, rng.randint(0, nt - 1)))
-        reps = 2
+        reps = 8
     else:
         k = max(nt, npu)
         for i in range(k * 2):
